@@ -91,6 +91,14 @@ func startServer(dir string, portBase int, eng string) (*server.Server, *node.Na
 	return kv, n, nil
 }
 
+// waitApplied: until the apply loop has finished everything that is committed
+func waitApplied(n *node.NamespaceNode) {
+	commit := n.Node.GetRaftStatus().Commit
+	for w := 0; w < 5000 && n.Node.GetAppliedIndex() < commit; w++ {
+		time.Sleep(time.Millisecond)
+	}
+}
+
 func snapFiles(dir string) int {
 	m, _ := filepath.Glob(path.Join(dir, liveGroup, "snap-1", "*.snap"))
 	return len(m)
@@ -103,6 +111,8 @@ func serve(dir string, portBase int, eng string, out *os.File) {
 		fmt.Fprintf(out, "FAIL %v\n", err)
 		return
 	}
+	// the rsync of a remote snapshot is played by the parent (it copies a real checkpoint into the remote backup dir)
+	common.SetStrDynamicConf(common.ConfIgnoreRemoteFileSync, "true")
 	fmt.Fprintf(out, "READY\n")
 	in := bufio.NewReader(os.Stdin)
 	for {
@@ -150,10 +160,7 @@ func serve(dir string, portBase int, eng string, out *os.File) {
 			// ApplyRaftRequest, i.e. BEFORE applyEntry calls postprocessRemoteApply: right after a successful call
 			// GetSyncedRaft can still return the previous position (data applied, position not yet recorded).
 			// Observe only when the apply loop has finished everything that is committed.
-			commit := n.Node.GetRaftStatus().Commit
-			for w := 0; w < 5000 && n.Node.GetAppliedIndex() < commit; w++ {
-				time.Sleep(time.Millisecond)
-			}
+			waitApplied(n)
 			pre := f[1]
 			k := int(atoiU(f[2]))
 			var parts []string
@@ -185,6 +192,46 @@ func serve(dir string, portBase int, eng string, out *os.File) {
 				time.Sleep(20 * time.Millisecond)
 			}
 			reply = "ok"
+		case "T", "P", "K": // <prefix> <c> <term> <index>: the real NotifyTransferSnap / NotifyApplySnap handlers
+			req := &syncerpb.RaftApplySnapReq{
+				ClusterName:   f[1] + clusterName(int(atoiU(f[2]))),
+				RaftGroupName: liveGroup,
+				Term:          atoiU(f[3]),
+				Index:         atoiU(f[4]),
+				SyncAddr:      "127.0.0.1",
+				SyncPath:      "/verif-nonexistent",
+			}
+			var rsp *syncerpb.RpcErr
+			var err error
+			switch f[0] {
+			case "T":
+				rsp, err = kv.NotifyTransferSnap(context.Background(), req)
+			case "K":
+				req.Type = syncerpb.SkippedSnap
+				rsp, err = kv.NotifyApplySnap(context.Background(), req)
+			default:
+				rsp, err = kv.NotifyApplySnap(context.Background(), req)
+			}
+			if err != nil {
+				reply = "rpcerr"
+			} else if rsp.ErrCode != 0 || rsp.ErrMsg != "" {
+				reply = "err"
+			} else {
+				reply = "ok"
+			}
+		case "G": // G <prefix> <c> <term> <index>: the real GetApplySnapStatus handler
+			waitApplied(n) // the transfer request is answered before its status is recorded (same reason as in O)
+			rsp, err := kv.GetApplySnapStatus(context.Background(), &syncerpb.RaftApplySnapStatusReq{
+				ClusterName:   f[1] + clusterName(int(atoiU(f[2]))),
+				RaftGroupName: liveGroup,
+				Term:          atoiU(f[3]),
+				Index:         atoiU(f[4]),
+			})
+			if err != nil {
+				reply = "rpcerr"
+			} else {
+				reply = fmt.Sprintf("g%d", int(rsp.Status))
+			}
 		case "E": // E <prefix> <maxc>
 			reply = dumpP(n.Node.VerifKVStore(), f[1], int(atoiU(f[2])))
 		}
@@ -310,10 +357,52 @@ func (l *live) close() {
 func runB(l *live, pre string, ops []string) (string, error) {
 	var obs []string
 	maxc := 0
+	srcs := map[int][]sent{}
+	restarted := false
 	for _, op := range ops {
 		f := strings.Split(op, ":")
 		res := "?"
+		fourth := ""
 		switch f[0] {
+		case "W":
+			c := int(atoiU(f[1]))
+			if c > maxc {
+				maxc = c
+			}
+			var sl []sent
+			if len(f) > 2 && f[2] != "" {
+				for _, e := range strings.Split(f[2], ",") {
+					g := strings.Split(e, ".")
+					sl = append(sl, sent{c: c, t: atoiU(g[0]), i: atoiU(g[1]), ts: int64(atoiU(g[2])), p: atoiU(g[3])})
+				}
+			}
+			srcs[c] = sl
+			continue
+		case "T", "P", "K":
+			c := int(atoiU(f[1]))
+			k := int(atoiU(f[2]))
+			if c > maxc {
+				maxc = c
+			}
+			e := srcs[c][k-1]
+			if f[0] == "P" && f[3] == "-" {
+				to := path.Join(rockredis.GetBackupDirForRemote(path.Join(l.dir, liveGroup)), rockredis.GetCheckpointDir(e.t, e.i))
+				if err := copySourceCheckpoint(l.eng, pre, srcs[c][:k], e.t, e.i, to); err != nil {
+					return "", fmt.Errorf("prepare checkpoint: %v", err)
+				}
+			}
+			r, err := l.ask(fmt.Sprintf("%s %s %d %d %d", f[0], pre, c, e.t, e.i))
+			if err != nil {
+				return "", err
+			}
+			res = r
+			if !restarted {
+				g, err := l.ask(fmt.Sprintf("G %s %d %d %d", pre, c, e.t, e.i))
+				if err != nil {
+					return "", err
+				}
+				fourth = g
+			}
 		case "B":
 			var ents []string
 			for _, e := range f[1:] {
@@ -342,6 +431,7 @@ func runB(l *live, pre string, ops []string) (string, error) {
 			if err := l.spawn(); err != nil {
 				return "", err
 			}
+			restarted = true
 			res = "ok"
 		case "Q":
 			c := int(atoiU(f[1]))
@@ -361,6 +451,9 @@ func runB(l *live, pre string, ops []string) (string, error) {
 		o, err := l.ask(fmt.Sprintf("O %s %d", pre, maxc))
 		if err != nil {
 			return "", err
+		}
+		if fourth != "" {
+			o = strings.TrimSuffix(o, "-") + fourth
 		}
 		obs = append(obs, res+";"+o)
 	}
@@ -387,8 +480,41 @@ func genRpcSchedule(r interface {
 	var ops []string
 	steps := 6 + r.Pick(10)
 	restarts := 0
+	// class snap: one source, one remote snapshot point handed over through the real NotifyTransferSnap /
+	// NotifyApplySnap handlers (with or without a usable checkpoint) BEFORE the first restart: the status map is
+	// volatile and what survives a crash depends on where the node's own snapshots fell, so no snapshot request is
+	// issued after a restart (the replay of the committed requests after the crash is still exercised)
+	snapK, snapFiles, snapDone := 0, true, false
+	if class == "snap" {
+		k = 1
+		src = src[:2]
+		cur = cur[:2]
+		snapK = 1 + r.Pick(len(src[1]))
+		snapFiles = !r.Chance(0.3)
+		var es []string
+		for _, e := range src[1] {
+			es = append(es, fmt.Sprintf("%d.%d.%d.%d", e.t, e.i, e.ts, e.p))
+		}
+		ops = append(ops, "W:1:"+strings.Join(es, ","))
+	}
 	for s := 0; s < steps; s++ {
 		c := 1 + r.Pick(k)
+		if class == "snap" && restarts == 0 && r.Chance(0.35) {
+			fl := "-"
+			if !snapFiles {
+				fl = "x"
+			}
+			switch y := r.Pick(10); {
+			case y < 5: // the hand-over
+				ops = append(ops, fmt.Sprintf("T:1:%d", snapK), fmt.Sprintf("P:1:%d:%s", snapK, fl))
+				snapDone = true
+			case y < 7:
+				ops = append(ops, fmt.Sprintf("T:1:%d", snapK))
+			default:
+				ops = append(ops, fmt.Sprintf("P:1:%d:%s", snapK, fl))
+			}
+			continue
+		}
 		switch x := r.Pick(20); {
 		case x < 13:
 			// a batch: optionally re-sends some already synced entries, then new ones; sometimes entries of
@@ -433,7 +559,8 @@ func genRpcSchedule(r interface {
 			}
 		}
 	}
-	if class == "ord" {
+	_ = snapDone
+	if class == "ord" || class == "snap" {
 		for c := 1; c <= k; c++ {
 			var ents []string
 			for ; cur[c] < len(src[c]); cur[c]++ {
